@@ -16,7 +16,7 @@ from .. import gen as cgen
 
 PROP = 'C10'
 TIERS = {
-    'quick': {'runs': 26000, 'chunk': 50, 'wall_cap': 80, 'min_budget': 30},
+    'quick': {'runs': 20000, 'chunk': 50, 'wall_cap': 80, 'min_budget': 30},
     'thorough': {'runs': 200000, 'chunk': 50, 'wall_cap': 850, 'min_budget': 60},
 }
 RULE = ('case = seeded netlist (<= 5 inputs, primitive gates, <= 2 primitive flip-flops/latches, 1-4 library instances of ONE built-in library; run i instantiates catalogue entry i mod |catalogue| so that every cell name '
@@ -300,10 +300,16 @@ def simulated_table(c, tlib, res):
     for i, col in enumerate(cols):
         bits = np.frombuffer(col.to_bytes((rows + 7) // 8, 'little'), dtype=np.uint8)
         mva[i] = np.unpackbits(bits, bitorder='little')[:rows] * 3
+    def shape(): return ([(len(n.ins), len(n.outs), n.kind) for n in c.nodes], [(id(l.driver), l.driver_pin, id(l.reader), l.reader_pin) for l in c.lines])
+    shape0 = shape()
     with contextlib.redirect_stdout(io.StringIO()):
         sim = lsim.make(c, rows, 2, False, False)
     lsim.assign(sim, mva)
     lsim.run(sim)
+    if shape0 != shape():
+        # a simulator is a reader of the circuit: the next transformation must find the circuit as the previous one left it
+        res.violate('circuit-modified-by-simulator', 'building and running a LogicSim changed the circuit object (pin lists, kinds, lines or connectivity): later transformations work on something else than what was simulated')
+        raise core.AbortRun(res)
     out = lsim.result_mv(sim)
     tab = {}
     for i, n in enumerate(snodes):
